@@ -740,6 +740,15 @@ def run(ctx):
         "a bond joins two distinct atoms (self-bonds i=i are outside the domain)",
         "boolean masks have exactly n entries; bond types are 0..9",
         "exhaustive model: atom count <= 3, bond types {0,1,5}; larger lists only through recorded traces",
+        "forms of the arguments (BondListOps Dom_ScalarForm / Dom_IdxForm / Dom_RowsForm): Python ints and numpy "
+        "integer scalars int8..uint64 (unsigned forms for non-negative values), Python lists and integer ndarrays "
+        "of those dtypes, big-endian and strided integer ndarrays, bool ndarrays / lists of bools / strided bool "
+        "views, slices with Python or numpy bounds, constructor arrays of those dtypes incl. big-endian, Fortran "
+        "order and strided views; other index objects (tuples, ranges, 0-d arrays, bools as integers) are outside",
+        "single calls in every form (BondCalls) use scalar indices in [-n, n+1]; scalar indices below -n are "
+        "exercised as Python ints by the state machine (known finding, needs a process per call)",
+        "comparisons: the other operand is a bond list (any atom count, any rows in range) or one of six foreign "
+        "objects (None, int, str, set, tuple, ndarray; the reflected comparison is not asked of the ndarray)",
         "trusted: TLC, the TLA+ value parser, the projection (get_atom_count/as_array), numpy",
     ]
     # ---- S1 + state graph ------------------------------------------------------------
@@ -969,6 +978,9 @@ def finish_calls(ctx, prep, results):
     ctx.evaluations += done
     ctx.nontrivial += sum(1 for cases in roots.values() for op, a, _e in cases
                           if op == "eq" or any(f not in ("py", "np") for _k, f in _forms_of(op, a)))
+    ctx.cov["rule"] = ("non-trivial = an S2 path of at least two calls, an S2b case that compares two lists or "
+                       "hands an argument over in a form other than a Python int / plain ndarray, an S3 "
+                       "history with at least two accepted calls")
     ctx.cov["s2b_cases"] = ncases
     ctx.cov["s2b_cases_executed"] = done
     ctx.cov["s2b_roots"] = len(roots)
@@ -1097,7 +1109,7 @@ def replay(record):
 
 
 MANIFEST = {
-    "technique": "TLA+ state machine of BondList (specs/C02) model-checked by TLC; every transition of TLC's state graph replayed into the real BondList; recorded random histories validated by TLC",
-    "level_text": "TLC explores every reachable state of the bond-list machine for <=3 atoms / 3 bond types under all 16 operations with in- and out-of-range indices (invariants: canonical mapping, cache soundness, refusal is a no-op), then every transition of that graph is executed against the real BondList in crash-isolated processes comparing atom count, bond set, outcome class and returned views; larger lists (<=30 atoms, all 10 bond types, unsorted index arrays, stepped slices) are covered by recorded histories that TLC re-computes event by event.",
-    "level_note": "Bounded: exhaustive only for n<=3 atoms and types {0,1,5}; beyond that only recorded histories. Self-bonds and ill-formed masks are outside the domain. Trusted: TLC, the TLA+ value parser, numpy, the projection get_atom_count()/as_array(). Cython is unavailable, so a defect in bonds.pyx can only be recorded as a known finding.",
+    "technique": "TLA+ state machine of BondList (specs/C02) model-checked by TLC; every transition of TLC's state graph replayed into the real BondList; every single call in every argument form and every comparison enumerated by TLC and executed; recorded random histories validated by TLC",
+    "level_text": "TLC explores every reachable state of the bond-list machine for <=3 atoms / 3 bond types under all 17 operations (incl. == / != against every one-aspect variant of the current list, the operand lists and foreign objects) with in- and out-of-range indices (invariants: canonical mapping, cache soundness, refusal is a no-op), then every transition of that graph is executed against the real BondList in crash-isolated processes comparing atom count, bond set, outcome class and returned views. A second exhaustive model (BondCalls) enumerates one call on root lists of 0..4 atoms with its arguments in every form a caller may use (Python int / numpy integer scalars int8..uint64, lists, integer ndarrays of every dtype, byte order and layout, bool arrays, lists of bools, strided views, slices with numpy bounds, constructor arrays of every dtype / order) and the comparison of every list of <=3 atoms with every variant differing in atom count, one bond type, one bond, or only in the way the rows are written; TLC proves form independence, bl[i] = get_bonds(i) and equality = agreement of all views, and all cases are executed against the real code. Larger lists (<=30 atoms, all 10 bond types, unsorted index arrays, stepped slices, random forms, comparisons with variants of the real list) are covered by recorded histories that TLC re-computes event by event.",
+    "level_note": "Bounded: exhaustive only for n<=3 atoms and types {0,1,5} (single calls: n<=4, thorough n<=5); beyond that only recorded histories. Self-bonds and ill-formed masks are outside the domain. Trusted: TLC, the TLA+ value parser, numpy, the projection get_atom_count()/as_array(). Cython is unavailable, so a defect in bonds.pyx can only be recorded as a known finding.",
 }
